@@ -234,6 +234,11 @@ extern "C" int shim_solve(void *ctx, const uint32_t *reqs, size_t nreq, const ui
 
     resolvo::Problem problem = {requirements, constraints, soft_requirements};
     Vector<SolvableId> result;
+    // the caller's result vector may already hold the solution of an earlier solve (a
+    // loop re-using one vector): whatever is in it must be replaced, not extended
+    uint32_t prefill = vq_style(ctx) % 4;
+    for (uint32_t i = 0; i < prefill; ++i) result.push_back(SolvableId{4000000 + i});
+    Vector<SolvableId> keep_alive(result);  // shared with the caller's copy
     String error = resolvo::solve(provider, problem, result);
 
     std::string_view ev = error;
